@@ -1930,7 +1930,7 @@ class Interp:
             if fn is not None:
                 key = f'{where[0]}:{where[1]}.{fn.name}'
                 c = self.w.registry.get(key)
-                if c is not None and not self.w.registry.force_inline(key):
+                if c is not None and not self.w.registry.force_inline(key) and self._self_sort_fits(c, obj.cls):
                     return BoundMeth(obj, fn.name, c)
                 return BoundMeth(obj, fn.name, Closure(fn, {}, where[0], where[1]))
             if 'dkeys' in obj.f or 'okeys' in obj.f:
@@ -1987,6 +1987,12 @@ class Interp:
                 or isinstance(obj, (ArrList, SetLit, PyTuple)) or (z3.is_expr(obj) and z3.is_array(obj))):
             return BoundMeth(obj, attr, PyConst('valuemethod', attr))
         self.oos(f'attribute {attr} of {type(obj).__name__}', n)
+
+    def _self_sort_fits(self, c, cls) -> bool:
+        """a contract stated for one representation of `self` is not used for another one"""
+        variants = getattr(c, 'variants', [c])
+        srt = variants[0].sig.get('self')
+        return srt is None or srt.split('{')[0].strip() == cls
 
     def wrap_field(self, v, get, set_):
         """mutable z3 records read from a field become write-through views."""
@@ -2263,7 +2269,7 @@ BUILTINS = {
     'len', 'isinstance', 'bool', 'int', 'str', 'min', 'max', 'range', 'all', 'any', 'getattr', 'hasattr',
     'callable', 'next', 'iter', 'enumerate', 'abs', 'repr', 'sorted', 'hash', 'issubclass', 'super', 'print', 'id',
     'ord', 'chr', 'zip', 'sum', 'old', 'int_ok', 'uint_ok', 'float_ok', 'implies', 'type', 'dict_with', 'dict_get',
-    'dict_has', 'seq_eq', 'out_ok', 'out_frame', 'out_ret', 'out_cut', 'out_fail_frame', 'exc_inside', 'exc_is', 'boundcall',
+    'dict_has', 'seq_eq', 'out_ok', 'out_frame', 'out_ret', 'out_cut', 'out_fail_frame', 'exc_inside', 'exc_is', 'boundcall', 'top_only',
 }
 
 
